@@ -866,7 +866,9 @@ Lemma step_honest l sd s : SdInv l sd -> honestP s ->
                 (sd', fst (expected_out ct hb l s), snd (expected_out ct hb l s)) /\ SdInv (l ++ [s]) sd'.
 Proof.
   intros [Hm [Hp HI]] Hs. destruct (add_honest l _ s HI Hs) as [d' [E HI']].
-  unfold bs_step. rewrite Hp, Hm, E. unfold expected_res, expected_out.
+  assert (Ht : shred_tag_ok s = true).
+  { destruct Hs as [i [j [_ [_ ->]]]]. unfold shred_tag_ok, hshred. cbn [b_index b_is_data]. apply eqb_reflx. }
+  unfold bs_step, bs_step_gen. rewrite Hp, Ht. cbn [andb negb]. rewrite Hm, E. unfold expected_res, expected_out.
   destruct hb_parent_ok as [p0 [parent [_ [_ [Hpar _]]]]]. rewrite Hpar.
   assert (Hn : forall A B : bs_ret * list bevent,
              match l with [] => A | _ :: _ => B end = if is_nilb l then A else B) by (intros; destruct l; reflexivity).
